@@ -152,6 +152,10 @@ def check_property(prop: str, tier: str) -> int:
     wall = time.perf_counter() - t0
 
     known = load_known()
+    import glob as _glob
+
+    for _f in _glob.glob(os.path.join(VERIF, "replays", prop + "-*.json")):
+        os.unlink(_f)  # replay files of earlier runs of this property are stale
     violations: list[dict] = []
     known_hits: dict[str, dict] = {}
     harness_errors: list[str] = []
